@@ -44,6 +44,10 @@ def dom_numeric(ctx):
     for v in vals:
         for dt in ('N', 'N0', 'N2', 'R'):
             yield (dt, v, 'B', '00401')
+    # the implied-decimal types the shipped data dictionary does not happen to use are types all the same (N0 .. N9)
+    for v in vals[:4000] + vals[-40:]:
+        for dt in ('N1', 'N3', 'N4', 'N5', 'N6', 'N7', 'N8', 'N9'):
+            yield (dt, v, 'B', '00401')
 
 
 def dom_dates(ctx):
